@@ -298,6 +298,15 @@ pub fn check_async(sc: &Scenario, b: &BuiltAsync, ao: &AsyncOut, out: &mut Vec<V
         // thread-local systems: only inside wait, every one of them, in order, on the caller
         let tl_events: Vec<&Event> = ev.iter().filter(|e| e.seq >= o.begin_seq && e.seq < o.end_seq && e.kind == Ev::TlEnter && infos[e.sid as usize].parent.is_none()).collect();
         if o.op == AOp::Wait {
+            if !tl_events.is_empty() && (o.active != 0 || !complete) {
+                // the blocking part of wait came back before the dispatches issued so far were
+                // complete, and the thread-local systems were started all the same
+                out.push(vio(
+                    "C12",
+                    "tl-before-others-finished",
+                    format!("operation #{} (wait) started thread-local system {} while {} system(s) of earlier dispatches were inside run ({} of {} system runs had started)", oi, tl_events[0].sid, o.active, o.runs, o.dispatched * n_ord),
+                ));
+            }
             let got: Vec<usize> = tl_events.iter().map(|e| e.sid as usize).collect();
             if got != tls {
                 let m = format!("operation #{} (wait): thread-local systems that ran: {:?}, registered: {:?}", oi, got, tls);
